@@ -8,6 +8,7 @@ use core::future::Future;
 verus! {
 //@include ../common/core.rs
 //@include ../common/poll.rs
+//@include ../common/sync.rs
 
 // ===================================================================== stand-ins (TRUSTED BASE)
 /// what a function has waited for (R21 trace)
